@@ -32,7 +32,10 @@ Un(a) == { "[" \o a \o "]",
            "(" \o a \o " as [$p, $q] | [$p, $q])",
            "(" \o a \o " as {a: $p} | $p)",
            "(" \o a \o " as [$p] ?// $p | [$p])",
-           "(" \o a \o " as {a: $p} ?// [$p] ?// $q | [$p, $q])" }
+           "(" \o a \o " as {a: $p} ?// [$p] ?// $q | [$p, $q])",
+           "(" \o a \o " as {$a, b: [$q]} ?// $r | [$a, $q, $r])",
+           "([{b: 1}, [2], 3, {a: [4]}][] as [$p] ?// {b: $q} ?// {a: [$r]} | [$p, $q, $r], " \o a \o ")",
+           "(.[]? as [$p, $q] ?// {a: $r} ?// $s | [$p, $q, $r, $s] | " \o a \o ")" }
 
 Bin(a, b) == { a \o " | " \o b,
                "(" \o a \o ", " \o b \o ")",
